@@ -3,7 +3,8 @@
         the i-th record is the i-th number (exported from the implementation);
         prints the n shard contents  OK <hex|->,<hex|->,...
    N <prefixhex|-> <number>               names of --prefix/--number  OK <hex>,<hex>,...
-   B <len>                                block sizes handed to the writer for len bytes *)
+   B <len>                                block sizes handed to the writer for len bytes
+   T <n> <spechex> <delimhex> <inputhex|->  whole tool, key hash computed by the Coq models (Fields + Murmur) *)
 open Model
 open Common
 
@@ -46,5 +47,12 @@ let () =
         let k = int_of_string len in
         let bs = List.init k (fun _ -> z_of_int 65) in
         print_endline ("OK " ^ String.concat "," (List.map (fun b -> string_of_int (List.length b)) (blocks bs)))
+      | ["T"; n; spec; delim; input] ->
+        (* the whole tool with the key computed by the Coq models of RangeFields and Murmur *)
+        let bs = if input = "-" then [] else zlist_of_hex input in
+        let d = match zlist_of_hex delim with c :: _ -> c | [] -> z_of_int 9 in
+        (match shard_tool_fields (zlist_of_hex spec) d (n_of_string n) bs with
+         | Some outs -> print_endline ("OK " ^ String.concat "," (List.map hex_or_dash outs))
+         | None -> print_endline "BADSPEC")
       | ["K"] -> print_endline ("K " ^ string_of_int (int_of_n kBlockSize))
       | _ -> print_endline "?")
